@@ -126,11 +126,29 @@ class PyFE:
         g['write_fixed_string'] = Bound(self._write_fixed)
         g['read_fixed_string'] = Bound(self._read_fixed)
         g['create_checksum_service'] = Bound(self._create_cks)
+        # the names of the codec runtime exist in the module only through its import statements (runtimes/python: what each
+        # module exports; `from codec import *` also brings ByteBuf, which codec itself imports); builtins are always there
+        exports = {'bytebuf': ['ByteBuf'], 'message_factory': ['MessageFactory'],
+                   'checksum': ['create_checksum_service'],
+                   'codec': ['BinaryCodec', 'ByteBuf', 'read_len', 'read_len_le', 'write_string', 'write_string_le', 'read_string', 'read_string_le',
+                             'write_fixed_string', 'read_fixed_string']}
+        runtime = {}
+        for names in exports.values():
+            for n in names:
+                if n in g:
+                    runtime[n] = g.pop(n)
         ctl = PathCtl()
         self.ctl = ctl
         try:
             for st in self.mod.body:
-                if isinstance(st, (ast.Import, ast.ImportFrom)):
+                if isinstance(st, ast.ImportFrom):
+                    for a in st.names:
+                        if st.module in exports:
+                            for n in (exports[st.module] if a.name == '*' else [a.name]):
+                                if n in runtime:
+                                    g[a.asname or n] = runtime[n]
+                    continue
+                if isinstance(st, ast.Import):
                     continue
                 if isinstance(st, ast.ClassDef):
                     bases = [self.ev(b, {}) for b in st.bases]
